@@ -830,6 +830,99 @@ def guards_of(fn, target_bb, lits=None):
 # ---------------------------------------------------------------- HIR
 
 
+
+# ---------------------------------------------------------------- forward taint (flow-sensitive, intraprocedural)
+def _pl_local(pl):
+    if isinstance(pl, int):
+        return pl
+    if isinstance(pl, dict) and "l" in pl:
+        return pl["l"]
+    return None
+
+
+def _op_local(op):
+    if not isinstance(op, dict):
+        return None
+    return _pl_local(op.get("c", op.get("m")))
+
+
+def rv_locals(rv):
+    """locals read by an rvalue."""
+    out = []
+    for k in ("use", "cast", "a", "b", "repeat"):
+        if k in rv and isinstance(rv[k], dict):
+            l = _op_local(rv[k])
+            if l is not None:
+                out.append(l)
+    for k in ("ref", "rawptr", "discr"):
+        if k in rv:
+            l = _pl_local(rv[k])
+            if l is not None:
+                out.append(l)
+    for o in rv.get("ops", []):
+        l = _op_local(o)
+        if l is not None:
+            out.append(l)
+    return out
+
+
+def loop_carried(fn, cs, arg_index):
+    """is argument `arg_index` of call site `cs` data-dependent on the result of an earlier execution of the same call?
+    Flow-sensitive forward taint from cs.dest along CFG edges (strong updates on whole-local assignments, weak updates
+    through projections, call results depend on all arguments, union at joins) until cs.bb is reached again."""
+    dest = _pl_local(cs.dest)
+    if dest is None or cs.target is None:
+        return False
+    blocks = fn.blocks
+    state = {}  # bb -> frozenset of tainted locals at block entry
+    work = [(cs.target, frozenset([dest]))]
+    arg_l = _op_local(cs.args[arg_index]) if arg_index < len(cs.args) else None
+    hit = False
+    while work:
+        bb, tin = work.pop()
+        old = state.get(bb)
+        if old is not None and tin <= old:
+            continue
+        tin = tin | (old or frozenset())
+        state[bb] = tin
+        t = set(tin)
+        for st in blocks[bb].get("s", []):
+            if "rv" not in st:
+                continue
+            src = any(l in t for l in rv_locals(st["rv"]))
+            d = st.get("dst")
+            dl = _pl_local(d)
+            if dl is None:
+                continue
+            if isinstance(d, int):
+                if src:
+                    t.add(dl)
+                else:
+                    t.discard(dl)
+            elif src:
+                t.add(dl)
+        term = blocks[bb]["t"]
+        if "call" in term:
+            args_t = any(_op_local(a) in t for a in term.get("args", []))
+            if bb == cs.bb:
+                if arg_l is not None and arg_l in t:
+                    hit = True
+                # a fresh execution: do not propagate further (we only ask about one round trip)
+                continue
+            dl = _pl_local(term.get("dest"))
+            if dl is not None:
+                if args_t:
+                    t.add(dl)
+                elif isinstance(term.get("dest"), int):
+                    t.discard(dl)
+        ft = frozenset(t)
+        for nx in fn.succ(bb):
+            if blocks[nx].get("cleanup"):
+                continue
+            work.append((nx, ft))
+    return hit
+
+
 def hir_walk(node, fn=None):
     """pre-order walk over a HIR JSON tree yielding every dict node."""
     st = [node]
